@@ -10,10 +10,8 @@ package vsync
 import "sync"
 
 type (
-	Mutex     = sync.Mutex
 	RWMutex   = sync.RWMutex
 	WaitGroup = sync.WaitGroup
-	Once      = sync.Once
 	Map       = sync.Map
 	Cond      = sync.Cond
 	Locker    = sync.Locker
@@ -68,4 +66,83 @@ func (p *Pool) Put(x interface{}) {
 		return
 	}
 	p.Items = append(p.Items, x)
+}
+
+// Yield, when non-nil (cooperative scheduler active), is called by a goroutine that cannot make
+// progress (mutex held by a suspended goroutine): the scheduler must switch to another goroutine.
+var Yield func()
+
+// LockOp, when non-nil, is told about every Lock / Unlock (lockset tracking for the access log).
+var LockOp func(m *Mutex, lock bool)
+
+// Mutex is sync.Mutex when running freely; under the cooperative scheduler Lock is a
+// scheduling point and waiting is made visible (yield instead of blocking the only running
+// thread).
+type Mutex struct {
+	mu   sync.Mutex
+	held bool
+}
+
+func (m *Mutex) Lock() {
+	if Yield == nil {
+		m.mu.Lock()
+		return
+	}
+	for m.held {
+		Yield()
+	}
+	m.held = true
+	if LockOp != nil {
+		LockOp(m, true)
+	}
+}
+
+func (m *Mutex) Unlock() {
+	if Yield == nil {
+		m.mu.Unlock()
+		return
+	}
+	m.held = false
+	if LockOp != nil {
+		LockOp(m, false)
+	}
+}
+
+func (m *Mutex) TryLock() bool {
+	if Yield == nil {
+		return m.mu.TryLock()
+	}
+	if m.held {
+		return false
+	}
+	m.held = true
+	if LockOp != nil {
+		LockOp(m, true)
+	}
+	return true
+}
+
+// InOnce counts active Once.Do initialisers (accesses made inside them are initialisation that
+// every later reader is ordered after, not racing writes).
+var InOnce int
+
+// Once is sync.Once when running freely; under the cooperative scheduler it runs the function
+// inline exactly once (single running thread) and marks the initialisation window.
+type Once struct {
+	once sync.Once
+	done bool
+}
+
+func (o *Once) Do(f func()) {
+	if Yield == nil {
+		o.once.Do(f)
+		return
+	}
+	if o.done {
+		return
+	}
+	o.done = true
+	InOnce++
+	defer func() { InOnce-- }()
+	o.once.Do(f)
 }
